@@ -24,7 +24,7 @@ func init() {
 				"of every fallible step that precedes it in its function, and every such step's error is checked; addRuleList keeps " +
 				"the previous list on each error edge. R4: the index conversion skips invalid entries and keeps converting the rest.",
 			NotCovered: "behaviour of the HTTP client under each fault kind; atomicity of renameio itself (trusted); disk-full and fsync semantics.",
-			Rules: map[string]string{"C13-R14": "builder wiring of the hash-prefix filters: own ID, cache file, storage and URL each (shared with C11-R11)", "C13-RC": "class rules (error chains, shadowed results, character classes, crossed arguments, pool constructors, array pools, loop completeness, loop-carried buffers, replacing setters, complete clones, Grow arithmetic, pooled-buffer escape, sorted searches, fresh decode targets, per-iteration objects, whole-message copies, codec guards) over the packages this property rests on", "C13-R13": "loadIndex only sorts the decoded entries; none is removed before validation", "C13-R12": "in-place list refresh: engine swap and cache clear under one write lock; same-typed arguments (acceptStale vs cache switches) are not crossed", "C13-R11": "the periodic refresh worker: the loop ends only on shutdown, refreshes on every uninterrupted tick, survives a failed refresh; shutdown refresh exactly when configured; constructor field map", "C13-R9": "an index key is converted to filter.ID only where the same field is validated by filter.NewID in the package", "C13-R10": "components with RefreshInitial are started through it in package cmd, never through their periodic Refresh", "C13-R1": "download / replace protocol tables", "C13-R2": "who may mutate files",
+			Rules: map[string]string{"C13-R15": "loadIndex (rule lists and blocked services): any load or decoding error rejects the whole index", "C13-R14": "builder wiring of the hash-prefix filters: own ID, cache file, storage and URL each (shared with C11-R11)", "C13-RC": "class rules (error chains, shadowed results, character classes, crossed arguments, pool constructors, array pools, loop completeness, loop-carried buffers, replacing setters, complete clones, Grow arithmetic, pooled-buffer escape, sorted searches, fresh decode targets, per-iteration objects, whole-message copies, codec guards) over the packages this property rests on", "C13-R13": "loadIndex only sorts the decoded entries; none is removed before validation", "C13-R12": "in-place list refresh: engine swap and cache clear under one write lock; same-typed arguments (acceptStale vs cache switches) are not crossed", "C13-R11": "the periodic refresh worker: the loop ends only on shutdown, refreshes on every uninterrupted tick, survives a failed refresh; shutdown refresh exactly when configured; constructor field map", "C13-R9": "an index key is converted to filter.ID only where the same field is validated by filter.NewID in the package", "C13-R10": "components with RefreshInitial are started through it in package cmd, never through their periodic Refresh", "C13-R1": "download / replace protocol tables", "C13-R2": "who may mutate files",
 				"C13-R3": "commit only after success", "C13-R4": "invalid index entries skipped, not aborting",
 				"C13-R7": "exact HTTP status check; only the size-limited reader that fails at the limit is used on a list's path",
 				"C13-R6": "blocked-service index: any invalid entry rejects the whole update",
@@ -238,6 +238,8 @@ func runC13(c *an.Ctx) {
 	// ---- R14: each hash-prefix filter has its own cache file (shared with C11-R11)
 	c.Floor("C13-R14", 9)
 	c.Borrow("C13-R14", runC11, func(o an.Obligation) bool { return o.Rule == "C11-R11" })
+	c.Floor("C13-R15", 2)
+	c13IndexDecode(c)
 	// ---- R10: the storage (and every other component with a RefreshInitial) is started from what is cached
 	if n := sharedInitialRefresh(c, "C13-R10"); n < 4 {
 		c.Und("C13-R10", "start-up refreshes", token.NoPos, "only %d RefreshInitial calls found in package cmd (expected the rule-list storage and the three hash-prefix filters)", n)
@@ -1042,4 +1044,49 @@ func c13IndexEntries(c *an.Ctx) {
 	})
 	c.Check(bad == "", "C13-R13", k+" keeps every index entry", fn.Pos(),
 		fmt.Sprintf("the decoded entries are only sorted (%d slices.* calls)", n), bad+": an entry can be removed before it was validated")
+}
+
+
+// c13IndexDecode: an index (rule lists, blocked services) that cannot be
+// decoded is rejected as a whole, whatever the kind of the decoding error; a
+// partially decoded index is never applied.
+func c13IndexDecode(c *an.Ctx) {
+	for _, k := range []string{"filter/internal/serviceblock.(*Filter).loadIndex", "filter/filterstorage.(*Default).loadIndex"} {
+		decide(c, "C13-R15", k, an.DecideCfg{
+			Dom: an.Domain{"loaderr": an.Bools, "decodeerr": an.Bools},
+			OnCall: func(it *an.Interp, name string, args []an.AV) (an.AV, bool) {
+				switch {
+				case strings.HasSuffix(name, "refreshable.Refreshable).Refresh"):
+					if it.Feature("loaderr").IsTrue() {
+						return an.AV{Kind: an.KTuple, Tup: []an.AV{an.CStr(""), an.NonNil("loadErr")}}, true
+					}
+					return an.AV{Kind: an.KTuple, Tup: []an.AV{an.Sym("text"), an.Nil()}}, true
+				case strings.HasSuffix(name, "json.Decoder).Decode"):
+					if it.Feature("decodeerr").IsTrue() {
+						return an.NonNil("decodeErr"), true
+					}
+					return an.Nil(), true
+				case strings.HasSuffix(name, "json.NewDecoder"):
+					return an.NonNil("decoder"), true
+				case strings.HasSuffix(name, "strings.NewReader"):
+					return an.NonNil("reader"), true
+				case name == "fmt.Errorf":
+					return an.NonNil("wrapped"), true
+				case strings.HasPrefix(name, "slices.Sort"):
+					return an.Nil(), true
+				}
+				return an.AV{}, false
+			},
+			Expect: func(f an.Features, o an.AOutcome) string {
+				if len(o.Ret) != 2 {
+					return "two results"
+				}
+				fail := f.B("loaderr") || f.B("decodeerr")
+				if fail != (o.Ret[0].Kind == an.KNil && o.Ret[1].Kind != an.KNil) {
+					return fmt.Sprintf("rejected=%v (any load or decoding error rejects the whole index); got %s", fail, o.RetString())
+				}
+				return ""
+			},
+		})
+	}
 }
